@@ -177,6 +177,13 @@ def targeted(rng):
                                 start=0, end=3 * DAY + 2 * H, now=4 * DAY, skip=None))
     out.append(dict(hist=h3, kp="p", cat="Op", filter=None, limit=0, random=0, sched=[0], seed=0,
                     start=None, end=None, now=4 * DAY, skip=None))
+    # categories outside the domain ('.' or '/' inside): correspondence only (the file cassette raises
+    # NoSuchRecording, '/' categories are never listed in memory / on file and leak into 'a' on S3)
+    h4 = [dict(cat=c, uuid=u[i], ct=i * H, t=i * H, meta=[]) for i, c in enumerate(["a.b", "a/b", "a", "a.b"])]
+    for c in ("a.b", "a/b", "a"):
+        for lim in (None, 1):
+            out.append(dict(hist=h4, kp="p", cat=c, filter=None, limit=lim, random=0, sched=[0], seed=0,
+                            start=None, end=None, now=8 * H, skip=None, outside_domain=True))
     return out
 
 
@@ -335,6 +342,8 @@ def direct(case, obs):
         if obs["mem"] != obs["file"]:
             fails.append(("category-extract", "in-memory and file cassette extract different categories from %r" % case["id"]))
         return fails
+    if case.get("outside_domain"):
+        return fails
     st = stored(case["hist"])
     pre = "dflt-" if case["skip"] is True else ""
     sets = {}
@@ -386,6 +395,8 @@ def direct(case, obs):
 def features(case):
     if case.get("kind") == "cat":
         return {"extract-category"}
+    if case.get("outside_domain"):
+        return {"category-outside-the-domain (correspondence only)"}
     f = {"kp=" + repr(case["kp"]), "cat=" + case["cat"], "random=%d" % case["random"],
          "limit=" + ("None" if case["limit"] is None else ("0 (observation only)" if case["limit"] == 0 else
                                                             ">=1" if case["limit"] < 50 else "more-than-matches")),
@@ -398,11 +409,24 @@ def features(case):
     if not all(native(v) for e in case["hist"] for _, v in e["meta"]):
         f.add("metadata-with-class-reference")
     f.add("stored=%d" % min(len(stored(case["hist"])), 10))
+    st = stored(case["hist"])
+    n3 = sum(1 for e in st.values() if why_not(case, e, True) is None)
+    if case["limit"] and case["limit"] < n3:
+        f.add("limit-cuts-the-s3-listing")
+    if case["start"] is not None:
+        endv = case["now"] if case["end"] is None else case["end"]
+        nd = endv // DAY - case["start"] // DAY + 1
+        f.add("s3-day-folders=" + ("0" if nd <= 0 else "1" if nd == 1 else "2+"))
+        folders = {e["ct"] // DAY for e in st.values() if why_not(case, e, True) is None}
+        if len(folders) >= 2:
+            f.add("matches-in-2+-day-folders")
+            if case["limit"] and case["limit"] < n3:
+                f.add("round-robin-under-a-cutting-limit")
     return f
 
 
 def nontrivial(case):
-    if case.get("kind") == "cat":
+    if case.get("kind") == "cat" or case.get("outside_domain"):
         return False
     st = stored(case["hist"])
     n = sum(1 for e in st.values() if why_not(case, e, False) is None)
